@@ -302,11 +302,11 @@ func checkFrac(c *fracCase) string {
 			return fmt.Sprintf("value %v: glyph missing or wrong command count", x)
 		}
 		got := d.Cmds[0].Args[0]
-		if math.Abs(got-x) > 1.0/214+1e-12 {
-			return fmt.Sprintf("the fractional value %v decodes as %v: off by %g > 1/214", x, got, math.Abs(got-x))
+		if math.Abs(got-x) > fracTol(x) {
+			return fmt.Sprintf("the fractional value %v decodes as %v: off by %g > %g", x, got, math.Abs(got-x), fracTol(x))
 		}
 		// form: hsbw operands (0, 100), then p q div hmoveto
-		if x != math.Trunc(x) {
+		if x != math.Trunc(x) && math.Abs(x) < 2e7 {
 			if len(d.NumVals) != 4 || len(d.Ops) < 2 || d.Ops[1] != t1ref.OpDiv {
 				return fmt.Sprintf("the fractional value %v is not written as `p q div` (numbers %v, ops %v)", x, d.NumVals, d.Ops)
 			}
@@ -321,15 +321,35 @@ func checkFrac(c *fracCase) string {
 	}
 	for i, x := range c.X {
 		gl := g.Glyphs[fmt.Sprintf("f%d", i)]
-		if gl == nil || len(gl.Cmds) != 1 || math.Abs(gl.Cmds[0].Args[0]-x) > 1.0/214+1e-12 {
+		if gl == nil || len(gl.Cmds) != 1 || math.Abs(gl.Cmds[0].Args[0]-x) > fracTol(x) {
 			return fmt.Sprintf("the fractional value %v is read back by type1.Read as %v", x, gl)
 		}
 	}
 	return ""
 }
 
+// fracTol is the error a number in `p q div` form with 32-bit operands and
+// q <= 107 can always achieve: 1/214 while every denominator up to 107 is
+// available (|x| < 2^31/107, i.e. about 2*10^7), and 1/(2 qmax) with qmax =
+// floor((2^31-1)/|x|) beyond that (down to the nearest integer, 0.5).
+func fracTol(x float64) float64 {
+	qmax := 107.0
+	if a := math.Abs(x); a > 0 {
+		qmax = math.Max(1, math.Min(107, math.Floor(2147483647/a)))
+	}
+	return 1/(2*qmax) + 1e-6*math.Max(1, math.Abs(x)/1e6)*1e-3 + 1e-12
+}
+
 func genFrac(t *rapid.T) float64 {
-	switch rapid.IntRange(0, 4).Draw(t, "class") {
+	switch rapid.IntRange(0, 5).Draw(t, "class") {
+	case 5:
+		// huge values: only part of the denominators fits 32-bit numerators
+		whole := rapid.OneOf(rapid.IntRange(1<<21, 1<<31-2), rapid.IntRange(1<<29, 1<<31-2), rapid.IntRange(19000000, 21000000)).Draw(t, "hugewhole")
+		x := float64(whole) + float64(rapid.IntRange(1, 999).Draw(t, "hugefrac"))/1000
+		if rapid.Bool().Draw(t, "hugeneg") {
+			x = -x
+		}
+		return x
 	case 0:
 		q := rapid.IntRange(2, 2000).Draw(t, "q")
 		p := rapid.IntRange(-2000000, 2000000).Draw(t, "p")
@@ -354,7 +374,7 @@ func genFrac(t *rapid.T) float64 {
 func TestP2Fractions(t *testing.T) {
 	rec := ev.New("C20", "fractions")
 	defer rec.Finish(t)
-	rec.Rule("finite fractional deltas |x| < 10^6: k/q with q <= 2000, decimals with 1-9 fractional digits, midpoints between neighbouring multiples of 1/107 (worst case of the approximation), arbitrary floats; 20 values per font. The independent decoder must read each within 1/214 and find the form `p q div` (denominator non-zero); type1.Read must agree within 1/214. Non-trivial: value is not an integer; distinct by value.")
+	rec.Rule("finite fractional deltas |x| < 10^6: k/q with q <= 2000, decimals with 1-9 fractional digits, midpoints between neighbouring multiples of 1/107 (worst case of the approximation), arbitrary floats; plus fractional values of magnitude 2^21..2^31, where 32-bit numerators leave only the denominators up to qmax = floor((2^31-1)/|x|), so that the bound is 1/(2 min(107, qmax)) - 0.5 at worst; 20 values per font. The independent decoder must read each within that bound (1/214 for |x| < 2*10^7) and, for |x| < 2*10^7, find the form `p q div` (denominator non-zero); type1.Read must agree within the same bound. Non-trivial: value is not an integer; distinct by value.")
 	ev.SetupRapid(15000, 1000000)
 	rapid.Check(t, func(t *rapid.T) {
 		c := &fracCase{}
